@@ -42,6 +42,10 @@ def check(ctx):
                                   "Protocol": '"fixed2"', "TermResponds": "TRUE", "SerialMod": 4, "Identity": "TRUE"}, workers=14, heap="10g", timeout=3000)
     ev = jt808_side(ctx, "default")
     jt808_side(ctx, "parseall")
+    # the frame extractor under sessions no friendly terminal produces: transfers abandoned for more than the 60 s they are kept,
+    # then continued; duplicates; impossible package numbers (logical clock; validated step by step by Trace_Extract)
+    from checks import extract_common as xc
+    xc.trace_extract(ctx, 300 if thorough else 40)
     ctx.sample({"from": "hostile-catalogue", "names": [e["name"] for e in ev if e["ev"] == "hostile"][:20]})
     # attachment server: hostile sessions through the real connection loop (in-memory conn, exact close points), judged by Trace_Attach
     ac.trace_attach(ctx, 900 if thorough else 150, hostile=True, sig_prefix="attachment ")
